@@ -27,10 +27,31 @@ def streamSizeOf (tr : List Trans) (st : IStream) : IStream × BitVec 64 :=
   let st1 := st.seekEnd
   let (st2, p) := st1.tellg
   let st3 := if sec64_load_unseekable tr.isEmpty st.fail st2.fail then st2.clear else st2
-  (st3, BitVec.ofInt 64 p)
+  (st3, sec64_load_stream_size (BitVec.ofInt 64 p))
 
 /-- `segment_impl::load` has the same guard as `section_impl::load` -/
 theorem seg64_load_unseekable_eq : seg64_load_unseekable = sec64_load_unseekable := rfl
+
+/-! ### class dispatch of the generated conditions (one definition per template instantiation) -/
+
+/-- `section_impl<T>::load` : `static_cast<size_t>( stream.gcount() ) != sizeof( header )` -/
+def secShortHdr (c : Cls) (gcount : BitVec 64) : Bool :=
+  match c with | .c32 => sec32_load_short_hdr gcount | .c64 => sec64_load_short_hdr gcount
+/-- `section_impl<T>::load` : `!( is_lazy || is_loaded )` -/
+def secEager (c : Cls) (isLazy isLoaded : Bool) : Bool :=
+  match c with | .c32 => sec32_load_eager isLazy isLoaded | .c64 => sec64_load_eager isLazy isLoaded
+/-- `segment_impl<T>::load` : `!( is_lazy || is_loaded )` -/
+def segEager (c : Cls) (isLazy isLoaded : Bool) : Bool :=
+  match c with | .c32 => seg32_load_eager isLazy isLoaded | .c64 => seg64_load_eager isLazy isLoaded
+/-- `segment_impl<T>::load_data` : `pstream->seekg( p_offset )` -/
+def segSeekTo (c : Cls) (off : BitVec 64) : BitVec 64 :=
+  match c with | .c32 => seg32_load_data_seek off | .c64 => seg64_load_data_seek off
+/-- `segment_impl<T>::load_data` : `pstream->read( data.get(), size )` -/
+def segReadN (c : Cls) (size : BitVec 64) : BitVec 64 :=
+  match c with | .c32 => seg32_load_data_readn size | .c64 => seg64_load_data_readn size
+/-- `segment_impl<T>::load_data` : `if ( is_complete )` -/
+def segDataOk (c : Cls) (isComplete : Bool) : Bool :=
+  match c with | .c32 => seg32_load_data_ok isComplete | .c64 => seg64_load_data_ok isComplete
 
 def isNullOrNobitsTy (t : BitVec 32) : Bool :=
   t == BitVec.ofNat 32 SHT_NULL || t == BitVec.ofNat 32 SHT_NOBITS
@@ -97,12 +118,12 @@ def secLoad (c : Cls) (enc : Enc) (tr : List Trans) (ls : LoadSt) (hdrOff : Int)
   let b0 : SecBuf := { cls := c, stype := 0, size := 0, data := none, dataSize := 0, streamSize := ss,
                        translatorEmpty := tr.isEmpty, isLazy := isLazy, index := idx }
   let ls := { ls with st := st }
-  if st.gcount != shdrSize c then
+  if secShortHdr c (BitVec.ofNat 64 st.gcount) then
     (ls, { b0 with addrSet := true })
   else
     let b := decodeShdr c enc got b0
     let b := { b with fileData := fileDataOf c tr st b }
-    if sec64_load_eager isLazy b.isLoaded then
+    if secEager c isLazy b.isLoaded then
       let (ls, b) := secGetData c tr ls b
       (ls, { b with addrSet := true })
     else (ls, { b with addrSet := true })
@@ -128,12 +149,13 @@ def segLoadData (c : Cls) (tr : List Trans) (ls : LoadSt) (g : Seg) : LoadSt × 
   let n := (match c with | .c32 => seg32_load_data_alloc size | .c64 => seg64_load_data_alloc size).toNat
   let ls := { ls with allocs := ls.allocs ++ [n] }
   -- `pstream->read(...)` converted to bool: the stream must not be failed after the read
-  let st1 := (ls.st.clear).seekg off.toInt
-  let (st2, got) := if size.toInt < 0 then (st1.readNeg, ([] : Bytes)) else st1.read size.toNat
-  let ok := !st2.fail
+  let st1 := (ls.st.clear).seekg (segSeekTo c off).toInt
+  let (st2, got) :=
+    if (segReadN c size).toInt < 0 then (st1.readNeg, ([] : Bytes)) else st1.read (segReadN c size).toNat
+  let isComplete := !st2.fail
   let st3 := { st2 with eof := st2.eof || ls.st.eof, fail := st2.fail || ls.st.fail }
   let ls := { ls with st := st3 }
-  if ok then (ls, { g with data := some (got ++ [0]), isLoaded := true }, true)
+  if segDataOk c isComplete then (ls, { g with data := some (got ++ [0]), isLoaded := true }, true)
   else (ls, { g with data := none }, false)
 
 def segGetData (c : Cls) (tr : List Trans) (ls : LoadSt) (g : Seg) : LoadSt × Seg :=
@@ -152,7 +174,7 @@ def segLoad (c : Cls) (enc : Enc) (tr : List Trans) (ls : LoadSt) (hdrOff : Int)
   let raw := wr (List.replicate (phdrSize c) 0) 0 got
   let g : Seg := decodePhdr c enc raw { streamSize := ss, isLazy := isLazy, offsetSet := true }
   let ls := { ls with st := st }
-  if !(isLazy || g.isLoaded) then
+  if segEager c isLazy g.isLoaded then
     let (ls, g, ok) := segLoadData c tr ls g
     (ls, g, ok)
   else (ls, g, true)
